@@ -16,7 +16,9 @@ def plans(tier):
 def real_plans(tier):
     s = vlib.seed()
     q = tier == "quick"
-    return [dict(real=True, sets="NetherlandsRDNewQuad", gens="star,hole,spiky,arbitrary", variants="base,subsets", n=300 if q else 10000, seed=s + 50, where="interior,origin,far,nl", maxz=16)]
+    return [dict(real=True, sets="NetherlandsRDNewQuad", gens="star,hole,spiky,arbitrary", variants="base,subsets", n=300 if q else 10000, seed=s + 50, where="interior,origin,far,nl", maxz=16),
+            # a round grid whose deepest pixel is an odd number of 1e-10 units: exact float comparison across subsets that include the deepest id
+            dict(real=True, sets="syn-odd", gens="star,hole,arbitrary", variants="base,subsets", n=200 if q else 5000, seed=s + 51, where="interior,origin,far", maxz=8, extra=["-minz", "5"])]
 
 
 def run(tier):
